@@ -31,6 +31,8 @@ EX.externals['skepticoin.hash.scrypt'] = _hash_uf('scrypt')
 def _time(eng, st, args, kwargs):
     # the clock: an arbitrary number per call (int() of it is taken by the callers)
     t = eng.fresh_term('now', z3.IntSort(), st)
+    if eng.ghost_ref is not None and not st.bound:
+        st.heap[eng.ghost_ref.loc].fields['now'] = V(t, INT)      # ghost: the last clock reading of this activation
     yield st, V(t, INT)
 
 
